@@ -37,7 +37,7 @@ KEY_ZIDX = "C11:gridStep/z-distributed/gradient-table-indexed-with-local-z"
 def gen_cases(tier, seed):
     rng = random.Random(111111 + seed)
     cases = []
-    for k in range(150 if tier == "quick" else 6000):
+    for k in range(150 if tier == "quick" else 20000):
         deg = rng.choice([2, 3, 3, 3, 4, 5])
         cases.append({"kind": "step", "deg": deg, "nv": rng.randint(max(5, deg + 2), 40), "edge": rng.choice(["fEq", "null", "periodic"]),
                       "seed": rng.randrange(1 << 30), "cost": 5})
